@@ -322,8 +322,11 @@ func (s *Store) compact(footer *Footer, partialCompactStart int,
 		compactFooter.spliceFooter(footer, partialCompactStart)
 	}
 
+	// syncAfterBytes is the effective setting: a CompactionSyncAfterBytes
+	// of 0 stands for the default, whose periodic syncs are documented
+	// to be followed by a file sync at the end of compaction.
 	if s.options != nil &&
-		(s.options.CompactionSync || s.options.CompactionSyncAfterBytes > 0) {
+		(s.options.CompactionSync || syncAfterBytes > 0) {
 		persistOptions.NoSync = false
 	}
 
